@@ -1,4 +1,5 @@
 SPECIFICATION Spec
 CONSTANTS
+  AssignRule = "numpy"
   CfgSpace <- MCSpaceQuick
 INVARIANT NoSilentWrong
